@@ -306,6 +306,39 @@ def make_o1(depth, maxlen, maxn=2):
     return o1
 
 
+SEQ_POOL = [0, 1, -5, True, False, None, 1.0, 0.0, 0.5, "1", "True", "None", "", "0", [1], [True], [1.0], {1: "v"}, {True: "v"}, {"1": "v"}]
+
+
+def check_text(p, text):
+    """native-side: does the serialised text decode to p?"""
+    try:
+        end, sh = Reader(list(map(ord, text)), bool).value(0)
+    except ValueError as ex:
+        return "serialised text %r does not decode: %s" % (text, ex)
+    if end != len(text):
+        return "serialised text %r has trailing data" % text
+    if not same_shape(shape_of(p), sh, []):
+        return "serialised text %r of %r decodes to %r" % (text, p, unshape(sh))
+    return None
+
+
+def make_o1_sequence():
+    """several values serialised one after the other in one process: each text still decodes to its own value (the serializer
+    keeps no memory of earlier values)"""
+    def o1s(en):
+        idx = [en.choice("v%d" % i, len(SEQ_POOL)) for i in range(2)]
+        vals = [copy.deepcopy(SEQ_POOL[i]) for i in idx]
+        case = lambda mv: {"sequence": idx}  # noqa
+        en.note_sample(case)
+        bad = []
+        for v in vals:
+            b_ = check_text(v, SER.PlaybookSerializer.serialize(v))
+            if b_:
+                bad.append(b_)
+        en.must_hold(not bad, "injective", case, detail=bad)
+    return o1s
+
+
 def _plain(v):
     if isinstance(v, ODict):
         class View(dict):
@@ -582,6 +615,9 @@ def obligations(tier):
     enc = [P.serialize, P._obj, P._str, P._dict, P._list, PV.exclude_dynamic_elements, PV.verify_play, PV.verify, PV.serialize_play, PV.hash_play]
     L = 3 if thorough else 2
     return [
+        Obligation("O1s-sequence", make_o1_sequence(), ["injective"],
+                   desc="two values serialised one after the other in the same process (%d x %d pairs of scalars and small containers that compare equal across types, e.g. 1 / True / 1.0 / '1'): each text decodes to its own value" % (len(SEQ_POOL), len(SEQ_POOL)),
+                   bounds={"values": [repr(v) for v in SEQ_POOL], "sequence length": 2}, encoded=enc[:5], budget_s=60, replay="collision", check_sample=True),
         Obligation("O1-injective-wide", make_o1(2 if thorough else 1, 1, 2), ["injective"],
                    desc="decode(serialize(p)) == p: plays of depth <= %d, <= 2 entries per container, symbolic strings (values and mapping keys) of <= 1 char" % (2 if thorough else 1),
                    bounds={"depth": 2 if thorough else 1, "entries per mapping / sequence": "<= 2", "strings": "<= 1 symbolic char of %r" % ALPHA,
@@ -611,6 +647,14 @@ def obligations(tier):
 
 # ------------------------------------------------------------------ native
 def _native(case):
+    if "sequence" in case:
+        bad = []
+        for i in case["sequence"]:
+            v = copy.deepcopy(SEQ_POOL[i])
+            b_ = check_text(v, SER.PlaybookSerializer.serialize(v))
+            if b_:
+                bad.append(b_)
+        return bad
     if "play" in case:
         p = from_jsonable(case["play"])
         text = SER.PlaybookSerializer.serialize(p)
